@@ -189,7 +189,7 @@ def stream_dim_algebra(c, SI, N):
     for op, a, b, e in cases:
         if op == 'pow': req.append('dimop|pow|%s|%s' % (pows_str(a), rat(e[1])))
         else: req.append('dimop|%s|%s|%s' % (op, pows_str(a), pows_str(b)))
-    ans = c.model(req)
+    ans = yield req
     nbad = 0
     for (op, a, b, e), r in zip(cases, ans):
         A = D.from_powers(dict(a)); B = D.from_powers(dict(b))
@@ -254,7 +254,7 @@ def stream_names(c, SI, N):
     rng = c.rng
     strings = ['', '*', '/', 'a', 'M*L/T2', 'M_2*L_2/T', 'M3_2*L3_2/T3', '/T', '/T/L', 'a//b', 'a*/b', 'a1_2_3', 'a__2', 'a2_', 'a_0', 'a0', '1', 'a1b2', 'x_y3', 'a_1_', 'a1__2', 'a_', 'a2_0']
     strings += [gen_factor_string(rng) for _ in range(N)]
-    ans = c.model(['split|' + s for s in strings] + ['dimofname|' + s for s in strings] + ['create|' + s for s in strings])
+    ans = yield ['split|' + s for s in strings] + ['dimofname|' + s for s in strings] + ['create|' + s for s in strings]
     n = len(strings); nbad = 0
     for i, s in enumerate(strings):
         # _split_factors
@@ -315,15 +315,16 @@ def make_arg(SI, rng, i, dims):
         return Plain(i), 'p'
     return SI.Dimension.from_powers(dict(d)).wrap('a%d' % i), 'q:' + pows_str(d)
 
-def stream_handlers(c, SI, entries, N):
+def stream_handlers(c, SI, entries, N, out):
     rng = c.rng
     handlers = {}
     for e in entries:
         handlers.setdefault((e['handler'], e['rank']), e['partial'].func)
     keys = sorted(handlers)
-    kinds = c.model(['handler|%s|%d' % k for k in keys])
+    kinds = yield ['handler|%s|%d' % k for k in keys]
     nbad = 0
     cases = []
+    pending = {}
     for key, kind in zip(keys, kinds):
         if kind in ('none', 'bad-request'):
             c.count('handlers:unknown-handler')
@@ -349,9 +350,9 @@ def stream_handlers(c, SI, entries, N):
                 if kind == 'powLike' and n >= 2:
                     if rng.random() < .15: args[1] = (rng.choice([None, object()]), 'p')
                     else:
-                        obj, val = gen_exponent(rng); args[1] = (obj, 'p'); expo = rat(val)
+                        obj, val = gen_exponent(rng); args[1] = (val if isinstance(obj, str) else obj, 'p'); expo = rat(val)
                 cases.append((key, kind, ('args', args), 'apply|%s|%s|%s' % (kind, ';'.join(a[1] for a in args), expo)))
-    ans = c.model([x[3] for x in cases])
+    ans = yield [x[3] for x in cases]
     for (key, kind, call, req), m in zip(cases, ans):
         h = handlers[key]
         def stub(*args, **kwargs):
@@ -373,29 +374,1219 @@ def stream_handlers(c, SI, entries, N):
         c.count('handler:%s:%s' % (kind, real.split('|')[0] if real.startswith('ok') else real))
         if real != m:
             nbad += 1
-            c.broken_no_input('corr:handler:' + kind, 'handler %s and its model disagree' % key[0], dict(stream='handlers', handler=key, request=req, real=real, model=m))
+            pending.setdefault(kind, dict(stream='handlers', handler=key, request=req, real=real, model=m))
     c.sample(dict(stream='handlers', request=cases[-1][3], model=ans[-1]))
     c.obligation('corr:handlers', nbad == 0, 'correspondence', '%d handler calls over %d handlers' % (len(cases), len(keys)))
-    return dict(zip(keys, kinds))
+    out['handler_kinds'] = dict(zip(keys, kinds)); out['pending'] = pending
+
+
+# ------------------------------------------------------------------------------------------------ stream: every dispatched function through the public API
+
+HALF_DIMS = [{'L': F(1)}, {'T': F(1)}, {'L': F(1), 'T': F(-1)}, {'M': F(1, 2)}, {'L': F(2)}, {'L': F(-1)}, {'M': F(1), 'L': F(1), 'T': F(-2)},
+             {'L': F(1, 2), 'T': F(-3, 2)}, {'θ': F(-1)}, {'I': F(2), 'T': F(1)}]
+
+def scale_of(p):
+    """factor by which the numerical value of a quantity of dimension p changes when every reference unit shrinks by 16
+    (exponents are multiples of 1/4, so this is an exact power of two)"""
+    e = sum(p.values(), F(0)) * 4
+    if e.denominator != 1: raise ValueError('exponent is not a multiple of 1/4')
+    return 2. ** int(e)
+
+class World:
+    """nutils objects shared by the function-array recipes"""
+    def __init__(self):
+        import numpy
+        from nutils import mesh, function
+        self.topo, self.geom = mesh.rectilinear([2, 2])
+        self.basis = self.topo.basis('std', degree=1)
+        self.u = function.field('u', self.basis)
+        self.args = dict(u=numpy.array([1, 2, .5, 3, -1, 2, .25, 1, 4.]))
+        self.smp = self.topo.sample('gauss', 2)
+        self.bsmp = self.topo.boundary.sample('gauss', 2)
+        self.ismp = self.topo.interfaces.sample('gauss', 1)
+        self.topo3, self.geom3 = mesh.rectilinear([1, 1, 1])
+        self.smp3 = self.topo3.sample('gauss', 1)
+
+def np_values(rng, shape, positive=False, cplx=False):
+    import numpy
+    pool = [.25, .5, 1., 1.5, 2., 3., 4., .75] if positive else [.25, .5, 1., 1.5, 2., 3., 4., -.5, -1., -2.5, 0.]
+    a = numpy.array([rng.choice(pool) for _ in range(int(numpy.prod(shape, dtype=int)))]).reshape(shape)
+    if cplx: a = a + 1j * numpy.array([rng.choice(pool) for _ in range(a.size)]).reshape(shape)
+    return a
+
+def recipes(SI, W, rng):
+    """fname -> list of (view, makers, call, how to evaluate).  `view` lists the positional arguments as the handler sees
+    them ('q<i>' operand i, 'p' something without dimension, ['q0','q1'] a sequence); `makers` build the plain operands."""
+    import numpy
+    from nutils import function
+    A = lambda **kw: (lambda: np_values(rng, (2, 3), **kw))
+    V = lambda **kw: (lambda: np_values(rng, (3,), **kw))
+    Mx = lambda **kw: (lambda: np_values(rng, (3, 3), **kw))
+    S = lambda **kw: (lambda: float(np_values(rng, (), **kw)))
+    P = dict(positive=True)
+    u, geom = W.u, W.geom
+    fs = lambda: u * u + rng.choice([1., 2.]) * geom[0]          # scalar function array
+    fv = lambda: geom * rng.choice([1., 2., .5]) + u              # vector function array (also a valid geometry)
+    gx = lambda: geom * rng.choice([2., .5, 1.]) + rng.choice([0., 1.]) * geom[::-1] * geom[::-1] * .25   # curved geometry
+    g3 = lambda: W.geom3 * rng.choice([2., .5, 1.])
+    f3 = lambda: W.geom3 * W.geom3[::-1] * rng.choice([1., 2.])
+    R = {}
+    def add(name, view, makers, call, ev='np'):
+        R.setdefault(name, []).append((view, makers, call, ev))
+    # -- degree one in the first operand
+    add('operator.pos', ['q0'], [A()], lambda a: +a)
+    add('operator.neg', ['q0'], [A()], lambda a: -a)
+    add('operator.abs', ['q0'], [A()], lambda a: abs(a))
+    add('operator.getitem', ['q0', 'p'], [A()], lambda a: a[1])
+    add('operator.getitem', ['q0', 'p'], [A()], lambda a: a[..., ::2])
+    for n in ('positive', 'negative', 'absolute'):
+        add('numpy.' + n, ['q0'], [A()], (lambda f: lambda a: f(a))(getattr(numpy, n)))
+    for n in ('conjugate', 'real', 'imag'):
+        add('numpy.' + n, ['q0'], [A(cplx=True)], (lambda f: lambda a: f(a))(getattr(numpy, n)))
+    add('numpy.transpose', ['q0'], [A()], lambda a: numpy.transpose(a))
+    add('numpy.reshape', ['q0', 'p'], [A()], lambda a: numpy.reshape(a, (3, 2)))
+    add('numpy.broadcast_to', ['q0', 'p'], [V()], lambda a: numpy.broadcast_to(a, (2, 3)))
+    add('numpy.take', ['q0', 'p'], [A()], lambda a: numpy.take(a, [0, 2], axis=1))
+    add('numpy.sum', ['q0'], [A()], lambda a: numpy.sum(a))
+    add('numpy.sum', ['q0', 'p'], [A()], lambda a: numpy.sum(a, 1))
+    add('numpy.mean', ['q0', 'p'], [A()], lambda a: numpy.mean(a, 0))
+    add('numpy.trace', ['q0'], [Mx()], lambda a: numpy.trace(a))
+    for n in ('max', 'min', 'amax', 'amin', 'ptp'):
+        add('numpy.' + n, ['q0'], [A()], (lambda f: lambda a: f(a))(getattr(numpy, n)))
+        add('numpy.' + n, ['q0', 'p'], [A()], (lambda f: lambda a: f(a, 1))(getattr(numpy, n)))
+    add('numpy.linalg.norm', ['q0'], [V()], lambda a: numpy.linalg.norm(a))
+    add('numpy.linalg.norm', ['q0'], [A()], lambda a: numpy.linalg.norm(a, axis=1))
+    add('numpy.linalg.norm', ['q0', 'p'], [V()], lambda a: numpy.linalg.norm(a, 1))
+    add('numpy.linalg.norm', ['q0', 'p'], [V()], lambda a: numpy.linalg.norm(a, numpy.inf))
+    # -- two operands that must agree
+    add('operator.add', ['q0', 'q1'], [A(), A()], lambda a, b: a + b)
+    add('operator.sub', ['q0', 'q1'], [A(), A()], lambda a, b: a - b)
+    add('operator.mod', ['q0', 'q1'], [A(), A(**P)], lambda a, b: a % b)
+    for n in ('add', 'subtract', 'maximum', 'minimum', 'hypot'):
+        add('numpy.' + n, ['q0', 'q1'], [A(), A()], (lambda f: lambda a, b: f(a, b))(getattr(numpy, n)), 'np~' if n == 'hypot' else 'np')
+    # -- products and quotients
+    add('operator.mul', ['q0', 'q1'], [A(), A()], lambda a, b: a * b)
+    add('operator.mul', ['q0', 'q1'], [S(), A()], lambda a, b: a * b)
+    add('operator.matmul', ['q0', 'q1'], [A(), Mx()], lambda a, b: a @ b)
+    add('numpy.multiply', ['q0', 'q1'], [A(), V()], lambda a, b: numpy.multiply(a, b))
+    add('numpy.matmul', ['q0', 'q1'], [V(), Mx()], lambda a, b: numpy.matmul(a, b))
+    add('operator.truediv', ['q0', 'q1'], [A(), A(**P)], lambda a, b: a / b)
+    add('operator.truediv', ['q0', 'q1'], [S(), A(**P)], lambda a, b: a / b)
+    add('numpy.divide', ['q0', 'q1'], [A(), A(**P)], lambda a, b: numpy.divide(a, b))
+    add('numpy.sqrt', ['q0'], [A(**P)], lambda a: numpy.sqrt(a))
+    for e in (2, -1, 0, 3, .5, 1.5, -2.):
+        add('operator.pow', ['q0', 'e'], [A(**P), lambda e=e: e], lambda a, e: a ** e, 'np' if float(e).is_integer() and abs(e) <= 3 else 'np~')
+        add('numpy.power', ['q0', 'e'], [A(**P), lambda e=e: e], lambda a, e: numpy.power(a, e), 'np' if float(e).is_integer() and abs(e) <= 3 else 'np~')
+    # -- plain results
+    for n in ('isnan', 'isfinite', 'shape', 'ndim', 'size'):
+        add('numpy.' + n, ['q0'], [A()], (lambda f: lambda a: f(a))(getattr(numpy, n)))
+    for n, f in dict(eq=operator.eq, ne=operator.ne, lt=operator.lt, le=operator.le, gt=operator.gt, ge=operator.ge).items():
+        add('operator.' + n, ['q0', 'q1'], [A(), A()], (lambda f: lambda a, b: f(a, b))(f))
+    for n in ('equal', 'not_equal', 'less', 'less_equal', 'greater', 'greater_equal'):
+        add('numpy.' + n, ['q0', 'q1'], [A(), A()], (lambda f: lambda a, b: f(a, b))(getattr(numpy, n)))
+    # -- sequences, assignment, interpolation
+    add('numpy.stack', [['q0', 'q1', 'q2']], [V(), V(), V()], lambda a, b, d: numpy.stack([a, b, d]))
+    add('numpy.stack', [['q0', 'q1']], [V(), V()], lambda a, b: numpy.stack([a, b], axis=1))
+    add('numpy.concatenate', [['q0', 'q1']], [V(), A()], lambda a, b: numpy.concatenate([a, b[0]]))
+    add('numpy.concatenate', [['q0', 'q1', 'q2']], [A(), A(), A()], lambda a, b, d: numpy.concatenate([a, b, d], axis=1))
+    def setitem(a, b):
+        a[1] = b
+        return a
+    add('operator.setitem', ['q0', 'p', 'q1'], [A(), V()], setitem)
+    add('numpy.interp', ['q0', 'q1', 'q2'], [lambda: numpy.array([rng.choice([-1., .5, 1.25, 2.5, 3.75, 6.]) for _ in range(4)]),
+                                             lambda: numpy.array([0., 1., 1.5, 3., 5.]), lambda: np_values(rng, (5,))], lambda x, xp, fp: numpy.interp(x, xp, fp))
+    # -- nutils function arrays
+    add('nutils.function.derivative', ['q0', 'p'], [fs], lambda a: function.derivative(a, 'u'), 'smp')
+    add('nutils.function.factor', ['q0'], [fs], lambda a: function.factor(W.smp.integral(a)), 'eval')
+    add('nutils.function.jump', ['q0'], [fs], lambda a: function.jump(a), 'ismp')
+    add('nutils.function.opposite', ['q0'], [fs], lambda a: function.opposite(a), 'ismp')
+    add('nutils.function.kronecker', ['q0', 'p', 'p', 'p'], [fs], lambda a: function.kronecker(a, 0, 3, 1), 'smp')
+    add('nutils.function.scatter', ['q0', 'p', 'p'], [fv], lambda a: function.scatter(a, 4, numpy.array([0, 2])), 'smp')
+    add('nutils.function.linearize', ['q0', 'p'], [fs], lambda a: function.linearize(a, 'u:v'), 'smp+v')
+    add('nutils.function.swap_spaces', ['q0', 'p', 'p'], [fs], lambda a: function.swap_spaces(a, 'X', 'Y'), 'none')
+    add('nutils.function.replace_arguments', ['q0', 'p'], [fs], lambda a: function.replace_arguments(a, dict(u=function.Argument('u', (9,)) * 2.)), 'smp')
+    add('nutils.function.grad', ['q0', 'q1'], [fs, gx], lambda a, x: function.grad(a, x), 'smp~')
+    add('nutils.function.grad', ['q0', 'q1'], [fv, gx], lambda a, x: function.grad(a, x), 'smp~')
+    add('nutils.function.surfgrad', ['q0', 'q1'], [fs, gx], lambda a, x: function.surfgrad(a, x), 'bsmp~')
+    add('nutils.function.div', ['q0', 'q1'], [fv, gx], lambda a, x: function.div(a, x), 'smp~')
+    add('nutils.function.curl', ['q0', 'q1'], [f3, g3], lambda a, x: function.curl(a, x), 'smp3~')
+    add('nutils.function.laplace', ['q0', 'q1'], [fs, gx], lambda a, x: function.laplace(a, x), 'smp~')
+    add('nutils.function.jacobian', ['q0', 'e'], [gx, lambda: 2], lambda x, n: function.jacobian(x, n), 'smp~')
+    add('nutils.function.jacobian', ['q0', 'e'], [gx, lambda: 1], lambda x, n: function.jacobian(x, n), 'bsmp~')
+    add('nutils.function.normal', ['q0'], [gx], lambda x: function.normal(x), 'bsmp~')
+    add('nutils.function.normalized', ['q0'], [lambda: fv() + 3.], lambda a: function.normalized(a), 'smp~')
+    add('nutils.function.curvature', ['q0'], [gx], lambda x: function.curvature(x), 'bsmp~')
+    add('nutils.function.evaluate', ['q0', 'q1', 'q2'], [lambda: function.field('c', shape=(2,)), lambda: function.field('d') * 2., lambda: function.field('c', shape=(2,)).sum()],
+        lambda a, b, d: function.evaluate(a, b, d, arguments=dict(c=numpy.array([1., .5]), d=numpy.array(3.))), 'tuple')
+    add('nutils.function.field', ['p', 'q0', 'q1'], [lambda: W.basis, lambda: numpy.array([1., .5])], lambda a, b: function.field('w', a, b, shape=(2,)), 'smp+w')
+    add('nutils.function.field', ['p', 'q0'], [lambda: W.basis], lambda a: function.field('u', a), 'smp')
+    add('nutils.function.arguments_for', ['q0', 'q1'], [fs, gx], lambda a, b: sorted(function.arguments_for(a, b)), 'none')
+    add('nutils.sample.Sample.integral', ['p', 'q0'], [fs], lambda a: W.smp.integral(a), 'eval')
+    add('nutils.sample.Sample.bind', ['p', 'q0'], [fs], lambda a: W.smp.bind(a), 'eval')
+    return R
+
+def evaluate_result(SI, W, r, ev):
+    """numerical content of a result (after unwrapping), as a list of numpy arrays / python values"""
+    import numpy
+    from nutils import function
+    ev = ev.rstrip('~')
+    if isinstance(r, tuple): return [x for y in r for x in evaluate_result(SI, W, y, ev)]
+    r = unwrap(SI, r)
+    if ev in ('np', 'tuple', 'none'):
+        return [r if isinstance(r, (list, tuple, int, bool, dict, str)) else numpy.asarray(r)] if ev != 'none' else [repr(r) if isinstance(r, list) else getattr(r, 'shape', None)]
+    args = dict(W.args)
+    if ev.endswith('+v'): args['v'] = numpy.arange(9.) / 2; ev = ev[:-2]
+    if ev.endswith('+w'): args['w'] = numpy.arange(36.).reshape(9, 2, 2) / 8; ev = ev[:-2]
+    if ev == 'eval':
+        return [numpy.asarray(x) for x in function.evaluate(r, arguments=args)]
+    if not hasattr(r, 'arguments'): return [numpy.asarray(r)]
+    smp = dict(smp=W.smp, bsmp=W.bsmp, ismp=W.ismp, smp3=W.smp3)[ev]
+    return [numpy.asarray(smp.eval(r, arguments={k: v for k, v in args.items() if k in r.arguments}))]
+
+def same(a, b, tol):
+    import numpy
+    if len(a) != len(b): return False
+    for x, y in zip(a, b):
+        if isinstance(x, numpy.ndarray) or isinstance(y, numpy.ndarray):
+            x = numpy.asarray(x); y = numpy.asarray(y)
+            if x.shape != y.shape: return False
+            if x.dtype.kind in 'fc' or y.dtype.kind in 'fc':
+                if tol:
+                    if not numpy.allclose(x, y, rtol=tol, atol=tol * 1e-3, equal_nan=True): return False
+                elif not numpy.array_equal(x, y, equal_nan=True): return False
+            elif not numpy.array_equal(x, y): return False
+        elif x != y: return False
+    return True
+
+def encode_view(view, dims, isq, expo):
+    out = []
+    for v in view:
+        if isinstance(v, list): raise ValueError
+        if v == 'p' or v == 'e': out.append('p')
+        else:
+            i = int(v[1:]); out.append('q:' + pows_str(dims[i]) if isq[i] else 'p')
+    return out
+
+def stream_api(c, SI, entries, N, out):
+    import numpy
+    rng = c.rng
+    import treelog
+    W = World()
+    R = recipes(SI, W, rng)
+    names = sorted(set(e['fname'] for e in entries) | set(R))
+    laws = dict(zip(names, (yield ['law|' + n for n in names])))
+    registered = {e['fname']: e for e in entries}
+    plan = []
+    for name in names:
+        law = laws[name]
+        if law == 'none':
+            c.count('api:unclassified-function'); c.extra.setdefault('unclassified_dispatch_entries', []).append(name); continue
+        if name not in R:
+            c.count('api:classified-without-recipe'); c.extra.setdefault('no_recipe', []).append(name); continue
+        kind = law.split('|')[1]
+        for _ in range(N):
+            view, makers, call, ev = rng.choice(R[name])
+            nops = len(makers)
+            qslots = sorted({int(v[1:]) for vv in view for v in (vv if isinstance(vv, list) else [vv]) if v[0] == 'q'})
+            mode = rng.choice(['same', 'same', 'free', 'free', 'mixed-plain'])
+            base = rng.choice(HALF_DIMS)
+            dims = {}; isq = {}
+            for i in qslots:
+                dims[i] = base if mode == 'same' else rng.choice(HALF_DIMS)
+                isq[i] = True
+            if mode == 'mixed-plain' and len(qslots) > 1:
+                j = rng.choice(qslots); isq[j] = False; dims[j] = {}
+            expo = None
+            plan.append((name, kind, view, makers, call, ev, dims, isq, mode))
+    # model requests
+    req = []
+    vals = []
+    for name, kind, view, makers, call, ev, dims, isq, mode in plan:
+        plain = [m() for m in makers]
+        vals.append(plain)
+        expo = 'none'
+        if 'e' in view:
+            expo = rat(F(plain[view.index('e')]))
+        if isinstance(view[0], list):
+            req.append('stack|%s|' % ';'.join(('q:' + pows_str(dims[int(v[1:])])) if isq[int(v[1:])] else 'p' for v in view[0]))
+        else:
+            req.append('apply|%s|%s|%s' % (kind, ';'.join(encode_view(view, dims, isq, expo)), expo))
+    ans = yield req
+    nbad = 0; nfail = 0
+    failed_functions = set()
+    for (name, kind, view, makers, call, ev, dims, isq, mode), plain, rq, m in zip(plan, vals, req, ans):
+        D = SI.Dimension
+        def operands(scale):
+            ops = []
+            for i, v in enumerate(plain):
+                if isinstance(v, numpy.ndarray): v = v.copy()
+                if i in dims and isq[i]:
+                    ops.append(D.from_powers(dict(dims[i])).wrap(v * scale_of(dims[i]) if scale else v))
+                else:
+                    ops.append(v)
+            return ops
+        tol = 0 if ev in ('np', 'none', 'tuple') else 1e-11     # function arrays: the rescaled expression may be simplified differently
+        replay = dict(stream='api', function=name, request=rq, model=m, mode=mode, operands=[repr(v)[:200] for v in plain],
+                      dims={str(i): pows_str(d) for i, d in dims.items()}, quantity={str(i): q for i, q in isq.items()})
+        c.case(('api', name, rq), nontrivial=True)
+        # what the law demands
+        if m.startswith('ok|'):
+            body = m[3:]
+            parts = body.split(';') if kind == 'evaluate' else [body]
+            want_dims = [pows_parse(re.match(r'Q<([^>]*)>', p_).group(1)) if p_.startswith('Q<') else {} for p_ in parts]
+        else:
+            want_dims = None
+        try:
+            r = call(*operands(False)); rexc = None
+        except Exception as e:
+            r = None; rexc = e
+        c.count('api:%s:%s' % (kind, 'ok' if rexc is None else exc_name(rexc)))
+        if name not in registered:
+            c.count('api:not-registered')
+        if m == 'err|assertion' or name == 'operator.setitem' and not isq[0]:
+            continue                      # no operand is a quantity in a checked position: the call may not even reach the handler
+        sig_fn = name.rsplit('.', 1)[-1]
+        if want_dims is None:
+            # the law says the operands are incompatible: must be rejected (TypeError family), except ==/!= through the operators,
+            # where Python falls back to identity and the answer must not depend on the values
+            if rexc is None:
+                if name in ('operator.eq', 'operator.ne') and isinstance(r, bool) and r == (name == 'operator.ne'):
+                    c.count('api:eq-ne-fallback'); continue
+                nfail += 1; failed_functions.add(name)
+                c.failing_input('mixed-dimensions-accepted:' + sig_fn, '%s accepts operands of different dimension' % name, dict(replay, real=repr(r)[:300]))
+            elif not isinstance(rexc, TypeError):
+                nbad += 1
+                c.broken_no_input('corr:api-error-class', '%s rejects incompatible operands with %s instead of a TypeError' % (name, type(rexc).__name__), dict(replay, exc=repr(rexc)[:300]))
+            continue
+        if rexc is not None:
+            nfail += 1; failed_functions.add(name)
+            sig = 'dispatch:curvature-not-unwrapped' if name == 'nutils.function.curvature' and isinstance(rexc, RecursionError) else 'dispatch-raises:%s:%s' % (sig_fn, type(rexc).__name__)
+            what = ('function.curvature on a dimensional geometry never returns: handler passes the wrapped Quantity back to the dispatching function (RecursionError)'
+                    if sig.startswith('dispatch:curvature') else '%s raises %s on operands its law admits' % (name, type(rexc).__name__))
+            c.failing_input(sig, what, dict(replay, exc=repr(rexc)[:300]))
+            continue
+        results = list(r) if kind == 'evaluate' and isinstance(r, tuple) else [r]
+        got_dims = [canon(dim_of(SI, x)) for x in results]
+        if got_dims != want_dims:
+            nfail += 1; failed_functions.add(name)
+            c.failing_input('wrong-dimension:' + sig_fn, '%s returns a dimension that differs from the one its homogeneity law dictates' % name,
+                            dict(replay, real=[pows_str(d) for d in got_dims], want=[pows_str(d) for d in want_dims]))
+            continue
+        # value commutes with unwrapping
+        try:
+            v_real = evaluate_result(SI, W, r, ev)
+            v_plain = evaluate_result(SI, W, call(*[v.copy() if isinstance(v, numpy.ndarray) else v for v in plain]), ev)
+        except Exception as e:
+            nbad += 1
+            c.broken_no_input('corr:api-evaluation', 'result of %s cannot be evaluated: %s' % (name, type(e).__name__), dict(replay, exc=repr(e)[:300])); continue
+        if not same(v_real, v_plain, 0):
+            nfail += 1; failed_functions.add(name)
+            c.failing_input('value-differs:' + sig_fn, 'numerical value of %s on quantities differs from the same computation on the plain numbers' % name,
+                            dict(replay, real=repr(v_real)[:300], plain=repr(v_plain)[:300]))
+            continue
+        c.traces += 1
+        # change of reference units
+        try:
+            r2 = call(*operands(True))
+            v2 = evaluate_result(SI, W, r2, ev)
+            res2 = list(r2) if kind == 'evaluate' and isinstance(r2, tuple) else [r2]
+            expect = [x * scale_of(d) if isinstance(x, numpy.ndarray) and x.dtype.kind in 'fc' and len(v_real) == len(res2) else x for x, d in zip(v_real, got_dims * (len(v_real) // max(1, len(got_dims))))]
+            okscale = same(v2, expect, tol)
+        except Exception as e:
+            okscale = False; v2 = repr(e)
+        if not okscale:
+            nfail += 1; failed_functions.add(name)
+            c.failing_input('unit-dependence:' + sig_fn, 'result of %s changes with the choice of reference units' % name, dict(replay, real=repr(v_real)[:300], rescaled=repr(v2)[:300]))
+            continue
+        c.count('api:unit-invariance-checked')
+    c.sample(dict(stream='api', request=req[-1], model=ans[-1], function=plan[-1][0]))
+    c.extra['functions_exercised'] = len(set(p_[0] for p_ in plan))
+    c.obligation('corr:api', nbad == 0 and nfail == 0, 'correspondence', '%d public calls over %d functions; %d failing, %d unexplained' % (len(plan), c.extra['functions_exercised'], nfail, nbad))
+    out['failed'] = failed_functions; out['laws'] = laws
+
+
+# ------------------------------------------------------------------------------------------------ streams: unit table, parse, Units.__setattr__, __format__
+
+def close_rel(x, exact, tol=1e-12):
+    x = F(x); exact = F(exact)
+    return abs(x - exact) <= tol * abs(exact) + F(1, 10 ** 300)
+
+def pow_str(p):
+    p = F(p)
+    if p == 1: return ''
+    return (str(p.numerator) if p.numerator != 1 else '') + ('_%d' % p.denominator if p.denominator != 1 else '')
+
+def frac_pow(v, p):
+    """exact v**p for Fractions when it is rational, else None"""
+    v = F(v); p = F(p)
+    if p.denominator == 1: return v ** p.numerator if (v or p >= 0) else None
+    def root(n, k):
+        r = round(n ** (1. / k))
+        for c_ in (r - 1, r, r + 1):
+            if c_ >= 0 and c_ ** k == n: return c_
+        return None
+    a, b = root(v.numerator, p.denominator), root(v.denominator, p.denominator)
+    if v < 0 or a is None or b is None: return None
+    return F(a, b) ** p.numerator
+
+def num_str(rng):
+    k = rng.randrange(8)
+    if k == 0: return str(rng.randint(1, 999))
+    if k == 1: return '%d.%s' % (rng.randint(0, 99), rng.choice(['5', '25', '125', '0', '75', '3', '1']))
+    if k == 2: return '.' + rng.choice(['5', '25', '1602176634', '1'])
+    if k == 3: return rng.choice(['-', '+']) + str(rng.randint(1, 50))
+    if k == 4: return '%d.' % rng.randint(1, 20)
+    if k == 5: return '0'
+    if k == 6: return rng.choice(['149597870700', '1.66053904020', '0.001', '1000000'])
+    return str(rng.randint(2, 9))
+
+def gen_unit_string(rng, spec, prefixes, base_names, noprefix, lead=True, maxf=4):
+    """a unit string from the documented grammar together with its meaning (dimension, exact value or None)"""
+    s = ''; dim = {}; val = F(1); exact = True
+    if lead and rng.random() < .6:
+        t = num_str(rng); s += t; val *= F(t)
+    nf = rng.choice([1, 1, 2, 2, 3, maxf])
+    for j in range(nf):
+        name = rng.choice(base_names)
+        pre = rng.choice(sorted(prefixes)) if name not in noprefix and rng.random() < .45 else ''
+        power = rng.choice([F(1)] * 5 + [F(2), F(3), F(2), F(1, 2), F(3, 2), F(1, 3), F(0), F(4)])
+        scale = num_str(rng) if rng.random() < .25 else ''
+        if scale.startswith(('+', '-')) and False: scale = scale[1:]
+        isnumer = rng.random() < .6
+        text = scale + pre + name + pow_str(power) if power != 0 else scale + pre + name + '0'
+        s += ('*' if isnumer else '/') + text if (s or not isnumer or rng.random() < .1) else text
+        d, v = spec[name]
+        uv = (prefixes[pre] if pre else 1) * v
+        pv = frac_pow(uv, power)
+        if pv is None: exact = False; pv = F(1)
+        fv = F(scale) * pv if scale else pv
+        for b, e in d.items(): dim[b] = dim.get(b, 0) + (e * power if isnumer else -e * power)
+        if isnumer: val *= fv
+        elif fv == 0: return None
+        else: val /= fv
+    return s, canon(dim), (val if exact else None)
+
+def corrupt_string(rng, s):
+    k = rng.randrange(6)
+    i = rng.randrange(len(s) + 1)
+    junk = rng.choice(['*', '/', '_', '0', '.', '-', 'x', ' ', 'e', 'μ', '2', '__', '//', 'da', 'K'])
+    if k == 0 and s: return s[:i] + s[i + 1:]
+    if k == 1: return s[:i] + junk + s[i:]
+    if k == 2 and s: return s[:i] + junk + s[i + 1:]
+    if k == 3: return s + junk
+    if k == 4: return junk + s
+    return s[::-1]
+
+def real_parse(SI, s):
+    try: q = SI.parse(s)
+    except Exception as e: return 'err', exc_name(e), None
+    return 'ok', canon(dim_of(SI, q)), unwrap(SI, q)
+
+def stream_units(c, SI, defs, N):
+    rng = c.rng
+    dreq = defs_request(defs)
+    a = yield [dreq, 'table', 'sispec', 'prefixes', 'checktable|' + dreq.split('|', 1)[1]]
+    nbad = 0
+    c.obligation('generated:si-unit-table', a[0].startswith('ok|') and a[4] == '1', 'generated-table',
+                 'model of Units.__setattr__/parse run on the %d extracted definitions: %s; agrees with siSpec: %s' % (len(defs), a[0], a[4]))
+    table = {}
+    for item in a[1].split(';'):
+        n_, d_, v_ = item.split('='); table[n_] = (pows_parse(d_), F(v_))
+    spec = {}
+    for item in a[2].split(';'):
+        n_, d_, v_ = item.split('='); spec[n_] = (pows_parse(d_), F(v_))
+    prefixes = {k: F(v) for k, v in (x.split('=') for x in a[3].split(';'))}
+    # real prefix table and real unit dict
+    realp = dict(SI.Units._Units__prefix)
+    if set(realp) != set(prefixes) or any(F(realp[k]) != F(float(prefixes[k])) for k in prefixes if k in realp):
+        bad = sorted(k for k in set(realp) | set(prefixes) if k not in realp or k not in prefixes or F(realp[k]) != F(float(prefixes[k])))
+        c.failing_input('unit-prefix:' + bad[0], 'metric prefix %r has the wrong value or is missing' % bad[0], dict(stream='units', real={k: repr(v) for k, v in realp.items()}, spec={k: str(v) for k, v in prefixes.items()}))
+        nbad += 1
+    real = dict(SI.units)
+    for name, (d, v) in spec.items():
+        q = real.get(name)
+        c.case(('unit', name), nontrivial=True)
+        if q is None or canon(dim_of(SI, q)) != d or not close_rel(unwrap(SI, q), v):
+            nbad += 1
+            c.failing_input('unit-table:' + name, 'unit %r is missing or has the wrong dimension/value' % name,
+                            dict(stream='units', unit=name, real=None if q is None else [pows_str(dim_of(SI, q)), repr(unwrap(SI, q))], spec=[pows_str(d), str(v)]))
+    ndiff = 0
+    for name in sorted(set(real) | set(table)):
+        q = real.get(name); m = table.get(name)
+        if q is None or m is None or canon(dim_of(SI, q)) != m[0] or not close_rel(unwrap(SI, q), m[1]):
+            ndiff += 1
+            if ndiff == 1:
+                c.broken_no_input('corr:unit-table', 'real SI.units and the model table built from the extracted definitions differ at %r' % name,
+                                  dict(stream='units', unit=name, real=None if q is None else [pows_str(dim_of(SI, q)), repr(unwrap(SI, q))], model=None if m is None else [pows_str(m[0]), str(m[1])]))
+    c.count('units:table-entries', len(real))
+    c.obligation('corr:unit-table', ndiff == 0 and nbad == 0, 'correspondence', '%d real entries vs %d model entries, %d spec entries' % (len(real), len(table), len(spec)))
+    if unsupported_defs := [d for d in defs if d[0] not in ('wrap', 'str', 'item')]:
+        raise Infra('unsupported unit definitions')
+
+    # ---- parse
+    base_names = sorted(d[1] for d in defs if d[1] in spec)
+    noprefix = {d[1] for d in defs if d[0] == 'item'}
+    cases = [('corpus', s_, None, None) for s_ in ['7μN*5h/6g', '-864km/24h', '2m/5cm', '', '5', '.', 'm', 'min', 'mm', 'Pa', 'cd', 'da', 'dam', 'ha', 'hm', 'Gy', 'T', 'mT', 'in', 'kin', 'min2', 'mmin',
+                                                  'm/0s', '2*3m', 'm*3', '0m_2', 'm-1', '2m0', 'km_2', 'm_2', 'ha_2', '4ha_2', '/s', '1/s', '*m', 'm*', 'm//s', 'm*/s', 'kg*m/s2', '1.5.2m', '+-1m', 'm_0', 'm__2', 'm2_', 'm1_2_3',
+                                                  'aJ', 'yg', 'Ym', 'μm', 'µm', 'Ω', 'kΩ', 'K', 'mK', 'mol', 'mmol', 'L', 'mL', 'dm3', 't', 'kt', 'Da', 'eV', 'keV', 'au', 'day', 'h', 'kh']]
+    while len(cases) < N:
+        g = gen_unit_string(rng, spec, prefixes, base_names, noprefix)
+        if g is None: continue
+        cases.append(('grammar',) + g)
+        if rng.random() < .4:
+            cases.append(('corrupted', corrupt_string(rng, g[0]), None, None))
+    cases = [x for x in cases if '|' not in x[1] and x[1] == x[1].strip() and '\n' not in x[1]]
+    # ---- Dimension.__call__, q / 'unit', __format__
+    fcases = []
+    specs = ['', '.0', '.1', '.2', '.3', '.6', '08.3', ',.1', '.10', '3']
+    for _ in range(N // 2):
+        g = gen_unit_string(rng, spec, prefixes, base_names, noprefix, lead=rng.random() < .3, maxf=3)
+        if g is None or g[2] is None or g[2] == 0: continue
+        u, d, uv = g
+        v = F(rng.choice([1, 2, 3, -5, 10, 1000, 7])) * F(1, rng.choice([1, 2, 4, 8])) * (uv if rng.random() < .7 else 1)
+        wrongdim = rng.random() < .15
+        qd = dict(d) if not wrongdim else spec_mul(d, {'L': F(1)})
+        if rng.random() < .1: u = corrupt_string(rng, u)
+        if '|' in u or u != u.strip(): continue
+        fcases.append((qd, v, rng.choice(specs), u))
+    # ---- Units.__setattr__ on a fresh Units instance
+    names = ['m', 'in', 'min', 'a', 'da', 'd', 'cd', 'k', 'kk', 'T', 'mT', 'h', 'hh', 'ol', 'mol', 'μ', 'μm', 'mm', 'x', 'y', 'yx', 'Yx', 'z', '']
+    seqs = []
+    for _ in range(max(10, N // 10)):
+        seq = []
+        for _ in range(rng.randint(1, 7)):
+            d = rng.choice(SMALL_DIMS); v = F(rng.choice([1, 2, 4, 8])) / rng.choice([1, 2, 4])
+            seq.append((rng.choice(names), d, v, rng.random() < .2))
+        seqs.append(seq)
+    reqs_parse = ['parse|' + x[1] for x in cases]
+    reqs_fmt = ['format|%s|%s|%s' % (pows_str(qd), rat(v), sp + u) for qd, v, sp, u in fcases] + ['construct|%s|%s' % (pows_str(qd), u) for qd, v, sp, u in fcases]
+    reqs_def = ['defseq|' + ';'.join('%s=%s=%s' % (n_, pows_str(d), rat(v)) for n_, d, v, _ in seq) for seq in seqs]
+    allans = yield [dreq] + reqs_parse + reqs_fmt + reqs_def
+    ans = allans[1:1 + len(reqs_parse)]
+    npar = 0
+    for (tag, s_, sd, sv), m in zip(cases, ans):
+        kind, rd, rv = real_parse(SI, s_)
+        if m == 'err|range' or kind == 'err' and rd == 'OverflowError' or kind == 'ok' and (rv == 0 or abs(rv) == float('inf')) and not m.startswith('ok|') or \
+                m.startswith('ok|') and F(m.split('|')[2]) != 0 and not (F(1, 10 ** 250) < abs(F(m.split('|')[2])) < 10 ** 250):
+            c.count('parse:skipped-float-range'); continue
+        c.case(('parse', s_), nontrivial=len(s_) > 1); c.count('parse:%s:%s' % (tag, kind if kind == 'ok' else rd))
+        replay = dict(stream='parse', s=s_, real=[kind, rd if kind == 'err' else pows_str(rd), repr(rv)], model=m, spec=None if sd is None else [pows_str(sd), str(sv)])
+        c.sample(replay) if tag == 'grammar' else None
+        if tag == 'grammar':
+            # meaning known by construction
+            bad = kind != 'ok' or rd != sd or (sv is not None and not close_rel(rv, sv, 1e-11))
+            if bad and not (kind == 'err' and rd == 'zeroDiv'):
+                npar += 1
+                c.failing_input('parse:grammar-string', 'SI.parse gives a wrong dimension/value (or rejects) for a string of the documented grammar', replay); continue
+        mf = m.split('|')
+        if mf[0] == 'ok': okm = kind == 'ok' and rd == pows_parse(mf[1]) and close_rel(rv, F(mf[2]), 1e-11)
+        elif mf[0] == 'inexact': okm = kind == 'ok' and rd == pows_parse(mf[1])
+        else: okm = kind == 'err' and rd == mf[1]
+        if not okm:
+            npar += 1
+            c.broken_no_input('corr:parse', 'SI.parse and its model disagree', replay)
+    c.obligation('corr:parse', npar == 0, 'correspondence', '%d strings' % len(cases))
+
+    ans = allans[1 + len(reqs_parse):1 + len(reqs_parse) + len(reqs_fmt)]
+    nf = 0
+    for i, (qd, v, sp, u) in enumerate(fcases):
+        D = SI.Dimension.from_powers(dict(qd))
+        q = D.wrap(float(v))
+        # construct
+        m = ans[len(fcases) + i].split('|')
+        try:
+            r = D(u); real = ('ok', canon(dim_of(SI, r)), unwrap(SI, r))
+        except Exception as e: real = ('err', exc_name(e), None)
+        replay = dict(stream='construct', dim=pows_str(qd), unit=u, real=repr(real), model=ans[len(fcases) + i])
+        if real[:2] == ('err', 'OverflowError') or 'err|range' in (ans[len(fcases) + i], ans[i]):
+            c.count('construct:skipped-float-range'); continue
+        c.count('construct:' + (real[0] if real[0] == 'ok' else real[1]))
+        okm = (real[0] == 'ok' and m[0] == 'ok' and real[1] == pows_parse(m[1]) and close_rel(real[2], F(m[2]), 1e-11)) or (real[0] == 'err' and m[0] == 'err' and real[1] == m[1])
+        if real[0] == 'ok' and real[1] != canon(qd) and qd:
+            nf += 1; c.failing_input('construct:wrong-dimension-accepted', 'Dimension.__call__ returns a quantity of another dimension', replay)
+        elif not okm and m[0] != 'inexact':
+            nf += 1; c.broken_no_input('corr:construct', 'Dimension.__call__ and its model disagree', replay)
+        if not is_q(SI, q): continue
+        # format
+        m = ans[i].split('|')
+        full = sp + u
+        lead = full[:len(full) - len(full.lstrip('0123456789.,'))]
+        if any(len(t) > 2 for t in re.findall(r'\d+', lead)):
+            c.count('format:skipped-huge-width-or-precision'); continue
+        try: out_ = format(q, sp + u); real = ('ok', out_)
+        except Exception as e: real = ('err', exc_name(e))
+        c.case(('format', pows_str(qd), str(v), sp + u), nontrivial=True); c.count('format:' + (real[0] if real[0] == 'ok' else real[1]))
+        replay = dict(stream='format', dim=pows_str(qd), value=str(v), spec=sp + u, real=real, model=ans[i])
+        if sp + u == '':
+            if real != ('ok', repr(q)): nf += 1; c.broken_no_input('corr:format', 'empty format spec does not give repr', replay)
+            continue
+        if m[0] == 'err':
+            if real[0] != 'err' or real[1] != m[1]:
+                if real[0] == 'ok' and m[1] == 'dimension':
+                    nf += 1; c.failing_input('format:wrong-dimension-accepted', 'formatting with a unit of another dimension is accepted', replay)
+                else:
+                    nf += 1; c.broken_no_input('corr:format', 'Quantity.__format__ and its model disagree', replay)
+            continue
+        pre, x, unit = m[1], F(m[2]), m[3] if len(m) > 3 else ''
+        try: format(1., pre + 'f'); prevalid = True
+        except ValueError: prevalid = False
+        if not prevalid:
+            c.count('format:invalid-float-spec')
+            if real != ('err', 'value'): nf += 1; c.broken_no_input('corr:format', 'invalid float format accepted', replay)
+            continue
+        if real[0] != 'ok':
+            nf += 1; c.broken_no_input('corr:format', 'Quantity.__format__ raises where the model formats', replay); continue
+        # same computation on plain numbers
+        plain = q.unwrap() / unwrap(SI, SI.parse(unit))
+        want = format(plain, pre + 'f') + unit
+        if real[1] != want or not close_rel(plain, x, 1e-11):
+            nf += 1
+            c.failing_input('format:value', 'formatted text differs from formatting the plain quotient value/unit', dict(replay, want=want, plain=repr(plain))); continue
+        # round trip
+        if ',' not in pre and (pre.split('.')[0] in ('', '0') or pre.startswith('0')) and unit[:1] not in ('+', '-'):
+            prec = int(pre.split('.')[1]) if '.' in pre else 6
+            kind, rd, rv = real_parse(SI, real[1])
+            uval = F(unwrap(SI, SI.parse(unit)))
+            okr = kind == 'ok' and rd == canon(qd) and abs(F(rv) - F(q.unwrap())) <= abs(uval) * F(1, 2 * 10 ** prec) * (1 + F(1, 10 ** 9)) + abs(F(q.unwrap())) * F(1, 10 ** 11)
+            c.count('format:roundtrip-checked')
+            if x * 10 ** prec == int(x * 10 ** prec): c.count('format:roundtrip-exactly-representable')
+            if not okr:
+                nf += 1
+                c.failing_input('format:roundtrip', 'parsing the formatted text does not give the quantity back (within the printed precision)', dict(replay, parsed=[kind, repr(rd), repr(rv)]))
+    c.obligation('corr:format-construct', nf == 0, 'correspondence', '%d format and %d construct cases' % (len(fcases), len(fcases)))
+
+    ans = allans[1 + len(reqs_parse) + len(reqs_fmt):]
+    nd = 0
+    for seq, m in zip(seqs, ans):
+        U = SI.Units(); res = []
+        for n_, d, v, as_str in seq:
+            D = SI.Dimension.from_powers(dict(d))
+            val = D.wrap(float(v))
+            try:
+                if not is_q(SI, val):
+                    # a plain float is not accepted; a string that parses to a float is
+                    try: setattr(U, n_, val); res.append('accepted-float')
+                    except TypeError: pass
+                    setattr(U, n_, repr(float(v)))
+                else:
+                    setattr(U, n_, val)
+                res.append('ok')
+            except ValueError as e:
+                res.append('exists' if 'already defined' in str(e) else 'collision' if 'collides' in str(e) else 'value')
+            except Exception as e:
+                res.append(exc_name(e))
+        realkeys = ';'.join('%s=%s' % (k, rat(F(unwrap(SI, U[k])))) for k in U)
+        want = m.split('|')
+        mk = ';'.join('%s=%s' % (k, rat(F(float(F(v_))))) for k, v_ in (x.rsplit('=', 1) for x in want[1].split(';'))) if want[1] else ''
+        c.case(('defseq', m), nontrivial=len(seq) > 1)
+        for r_ in res: c.count('define:' + r_)
+        if ','.join(res) != want[0] or sorted(realkeys.split(';')) != sorted(mk.split(';')):
+            nd += 1
+            c.broken_no_input('corr:Units.__setattr__', 'Units.__setattr__ and its model disagree', dict(stream='define', seq=[(n_, pows_str(d), str(v)) for n_, d, v, _ in seq], real=[res, realkeys[:400]], model=m[:400]))
+    c.obligation('corr:Units.__setattr__', nd == 0, 'correspondence', '%d definition sequences' % len(seqs))
+
+
+# ------------------------------------------------------------------------------------------------ stream: Topology.locate
+
+def stream_locate(c, SI, N):
+    import numpy
+    from nutils import mesh
+    rng = c.rng
+    topo, geom = mesh.rectilinear([2, 3])
+    cases = []
+    for _ in range(N):
+        dims = [rng.choice(HALF_DIMS[:3]) for _ in range(2)]
+        def pick(optional):
+            r = rng.random()
+            if optional and r < .25: return None
+            if r < .4: return {}
+            return rng.choice(dims + [dims[0]] * 3)
+        cases.append((pick(False), pick(False), pick(True), pick(True)))
+    enc = lambda d: 'none' if d is None else 'p' if not d else 'q:' + pows_str(d)
+    ans = yield ['locate|' + '|'.join(enc(d) for d in case) for case in cases]
+    nbad = 0
+    for case, m in zip(cases, ans):
+        g, co, tol, md = case
+        W = lambda d, v: v if d is None else SI.Dimension.from_powers(dict(d)).wrap(v)
+        pts = numpy.array([[.5, .75], [1.5, 2.25], [1.75, .5]])
+        def call(scale):
+            f = (lambda d: scale_of(d) if d and scale else 1.)
+            return topo.locate(W(g, geom * 2. * f(g)), W(co, pts * 2. * f(co)), tol=None if tol is None else W(tol, 1e-9 * f(tol)), maxdist=None if md is None else W(md, 10. * f(md)))
+        replay = dict(stream='locate', geom=enc(g), coords=enc(co), tol=enc(tol), maxdist=enc(md), model=m)
+        c.case(('locate', replay['geom'], replay['coords'], replay['tol'], replay['maxdist']), nontrivial=True)
+        if not (g or co):
+            c.count('locate:not-dispatched'); continue      # nutils_dispatch looks at positional arguments only
+        try: smp = call(False); real = 'ok'
+        except Exception as e: real = 'err|' + exc_name(e)
+        c.count('locate:' + real)
+        if m == 'err|dimension' and real == 'ok':
+            nbad += 1; c.failing_input('mixed-dimensions-accepted:locate', 'Topology.locate accepts geometry/coordinates/tolerances of different dimension', replay); continue
+        if m == 'err|assertion': continue
+        if m == 'ok' and real == 'err|type' and tol is None:
+            c.count('locate:plain-locate-rejects-tol-None'); continue
+        if m != real and not (m == 'ok' and real != 'ok' and not g):
+            nbad += 1; c.broken_no_input('corr:locate', 'Topology.locate and its model disagree', dict(replay, real=real)); continue
+        if real == 'ok' and g:
+            x = smp.eval(geom * 2.)
+            smp2 = call(True)
+            if not numpy.allclose(x, pts * 2., atol=1e-8) or not numpy.allclose(smp2.eval(geom * 2.), pts * 2., atol=1e-8):
+                nbad += 1; c.failing_input('locate:wrong-points', 'located points differ from the requested coordinates (or depend on the reference unit)', replay)
+    c.obligation('corr:locate', nbad == 0, 'correspondence', '%d calls' % len(cases))
+    return
+    yield
+
+
+# ------------------------------------------------------------------------------------------------ stream: container protocol of Quantity (direct oracle, no model)
+
+def stream_protocol(c, SI, N):
+    import numpy
+    rng = c.rng
+    nbad = 0
+    def fail(what, **kw):
+        nonlocal nbad
+        nbad += 1
+        c.failing_input('quantity-protocol:' + what, 'Quantity container protocol: ' + what, dict(stream='protocol', **kw))
+    for _ in range(N):
+        d = rng.choice(HALF_DIMS); D = SI.Dimension.from_powers(dict(d))
+        v = np_values(rng, rng.choice([(), (3,), (2, 3)]))
+        v = float(v) if v.shape == () else v
+        q = D.wrap(v)
+        c.case(('protocol', pows_str(d), repr(v)), nontrivial=True)
+        if type(q) is not D or q.unwrap() is not v: fail('wrap/unwrap', dim=pows_str(d))
+        if SI.Dimensionless.wrap(v) is not v: fail('dimensionless wrap keeps the wrapper')
+        if D(q) is not q: fail('Dimension.__call__ on an instance')
+        if numpy.ndim(v) == 0 and bool(q) != bool(v): fail('__bool__')
+        if numpy.ndim(v):
+            if len(q) != len(v): fail('__len__')
+            items = list(q)
+            if any(type(x) is not D for x in items) or not all(numpy.array_equal(x.unwrap(), y) for x, y in zip(items, v)): fail('__iter__')
+        else:
+            if hash(q) != hash((D, v)): fail('__hash__')
+        q2 = pickle.loads(pickle.dumps(q))
+        if type(q2) is not D or not numpy.array_equal(q2.unwrap(), v): fail('pickle', dim=pows_str(d))
+        if repr(q) != repr(v) + D.__name__ or str(q) != str(v) + D.__name__: fail('repr/str')
+        for bad in (5, 5., None, [1]):
+            try: D(bad); fail('Dimension.__call__ accepts a non-string', value=repr(bad))
+            except ValueError: pass
+            except Exception as e: fail('Dimension.__call__ raises %s for a non-string' % type(e).__name__)
+        try: SI.Quantity('1m'); fail('Quantity base class can be instantiated')
+        except Exception: pass
+    # string division and stringly/ags round trips on parsed quantities
+    for s_ in ['5kN', '2.5m/s', '-864km/24h', '3mm2', '7μN*5h/6g', '1.5/min']:
+        q = SI.parse(s_); D = type(q)
+        if D.__stringly_dumps__(q) != s_ or q.__into_ags__() != s_: fail('stringly dumps', s=s_)
+        q3 = D.__stringly_loads__(s_); q4 = D.__from_ags__(s_)
+        if type(q3) is not D or q3.unwrap() != q.unwrap() or q4.unwrap() != q.unwrap(): fail('stringly loads', s=s_)
+        other = rng.choice(['N', 'm/s', 'km/h', 'mm2', 'kg*m/s2', '/s', 'ms'])
+        try:
+            r = q / other; ok = type(SI.parse(other)) is D
+            if not ok or r != q.unwrap() / SI.parse(other).unwrap(): fail('division by a unit string', s=s_, unit=other)
+        except SI.DimensionError:
+            if type(SI.parse(other)) is D: fail('division by a unit string of the same dimension rejected', s=s_, unit=other)
+        c.case(('strdiv', s_, other), nontrivial=True)
+    c.obligation('oracle:quantity-protocol', nbad == 0, 'exploration', '%d quantities' % N)
+    return
+    yield
+
+
+# ------------------------------------------------------------------------------------------------ stream: keyword operands and the recorded findings
+
+def keyword_cases(SI):
+    """(label, signature or None, function of a scale -> Quantity result).  A call is unit independent when the result
+    for operands rescaled by s**dim equals the rescaled result."""
+    import numpy
+    L, Fo = {'L': F(1)}, {'M': F(1)}
+    Lw, Fw = SI.Dimension.from_powers(L).wrap, SI.Dimension.from_powers(Fo).wrap
+    a = numpy.array([[1., 2., -.5], [4., .25, 3.]]); x = numpy.array([-1., .5, 2.5]); xp = numpy.array([0., 1., 2.]); fp = numpy.array([10., 12., 8.])
+    mask = numpy.array([True, False, True])
+    K = [
+        ('max-initial', 'unit-dependence:reduction-initial', lambda s: numpy.max(Lw(a * s), initial=5.), 'reduction with a plain `initial=` mixes a dimensionless number into a dimensional result'),
+        ('min-initial', 'unit-dependence:reduction-initial', lambda s: numpy.min(Lw(a * s), initial=-5.), 'reduction with a plain `initial=` mixes a dimensionless number into a dimensional result'),
+        ('sum-initial', 'unit-dependence:reduction-initial', lambda s: numpy.sum(Lw(a * s), initial=5.), 'reduction with a plain `initial=` mixes a dimensionless number into a dimensional result'),
+        ('amax-initial', 'unit-dependence:reduction-initial', lambda s: numpy.amax(Lw(a * s), axis=1, initial=1.), 'reduction with a plain `initial=` mixes a dimensionless number into a dimensional result'),
+        ('norm-ord0', 'unit-dependence:norm-ord0', lambda s: numpy.linalg.norm(Lw(numpy.array([1., 0., 2.]) * s), 0), 'numpy.linalg.norm(q, 0) labels a count with the dimension of q'),
+        ('norm-ord0-kw', 'unit-dependence:norm-ord0', lambda s: numpy.linalg.norm(Lw(numpy.array([1., 0., 2.]) * s), ord=0), 'numpy.linalg.norm(q, 0) labels a count with the dimension of q'),
+        ('interp-left', 'unit-dependence:interp-left-right-period', lambda s: numpy.interp(Lw(x * s), Lw(xp * s), Fw(fp * s), left=5.), 'numpy.interp left/right/period keywords bypass the dimension check'),
+        ('interp-right', 'unit-dependence:interp-left-right-period', lambda s: numpy.interp(Lw(x * s), Lw(xp * s), Fw(fp * s), right=5.), 'numpy.interp left/right/period keywords bypass the dimension check'),
+        ('interp-period', 'unit-dependence:interp-left-right-period', lambda s: numpy.interp(Lw(x * s), Lw(xp * s), Fw(fp * s), period=1.5), 'numpy.interp left/right/period keywords bypass the dimension check'),
+        # keyword uses that must be fine
+        ('sum-axis-keepdims', None, lambda s: numpy.sum(Lw(a * s), axis=0, keepdims=True), ''),
+        ('sum-where', None, lambda s: numpy.sum(Lw(a * s), axis=0, where=mask[None].repeat(2, 0)), ''),
+        ('mean-axis', None, lambda s: numpy.mean(Lw(a * s), axis=1), ''),
+        ('max-axis-keepdims', None, lambda s: numpy.max(Lw(a * s), axis=1, keepdims=True), ''),
+        ('ptp-axis', None, lambda s: numpy.ptp(Lw(a * s), axis=0), ''),
+        ('take-axis', None, lambda s: numpy.take(Lw(a * s), [2, 0], axis=1), ''),
+        ('trace-offset', None, lambda s: numpy.trace(Lw(a * s), offset=1), ''),
+        ('norm-ord2-axis', None, lambda s: numpy.linalg.norm(Lw(a * s), ord=2, axis=1), ''),
+        ('norm-inf', None, lambda s: numpy.linalg.norm(Lw(a * s), ord=numpy.inf, axis=0), ''),
+        ('norm-fro', None, lambda s: numpy.linalg.norm(Lw(a * s), ord='fro'), ''),
+        ('norm-minus1', None, lambda s: numpy.linalg.norm(Lw(a[0] * s), ord=-1), ''),
+        ('stack-axis', None, lambda s: numpy.stack([Lw(a * s), Lw(a * s * 2)], axis=-1), ''),
+        ('concatenate-axis', None, lambda s: numpy.concatenate([Lw(a * s), Lw(a * s)], axis=1), ''),
+        ('reshape-order', None, lambda s: numpy.reshape(Lw(a * s), (3, 2), order='F'), ''),
+        ('transpose-axes', None, lambda s: numpy.transpose(Lw(a * s), axes=(1, 0)), ''),
+        ('add-where', None, lambda s: numpy.add(Lw(a * s), Lw(a * s), where=True), ''),
+        ('interp-plain', None, lambda s: numpy.interp(Lw(x * s), Lw(xp * s), Fw(fp * s)), ''),
+    ]
+    return K
+
+def stream_keywords(c, SI):
+    import numpy
+    nbad = 0
+    state = {}
+    for label, sig, f, what in keyword_cases(SI):
+        c.case(('keyword', label), nontrivial=True)
+        try:
+            r1 = f(1.); r2 = f(16.)
+            d = canon(dim_of(SI, r1))
+            ok = canon(dim_of(SI, r2)) == d and numpy.allclose(numpy.asarray(unwrap(SI, r2), dtype=float), numpy.asarray(unwrap(SI, r1), dtype=float) * scale_of(d), rtol=1e-12, atol=0, equal_nan=True)
+            detail = dict(stream='keywords', case=label, result=repr(r1), rescaled=repr(r2))
+        except Exception as e:
+            ok = isinstance(e, TypeError); detail = dict(stream='keywords', case=label, exc=repr(e))     # rejecting is sound
+            if not ok:
+                nbad += 1; c.broken_no_input('corr:keywords', 'keyword call %s raises %s' % (label, type(e).__name__), detail); continue
+        c.count('keywords:' + ('unit-independent' if ok else 'unit-dependent'))
+        state.setdefault(sig, []).append(not ok)
+        if not ok:
+            if c.failing_input(sig or 'unit-dependence:' + label, what or 'result of the keyword call %s changes with the choice of reference units' % label, detail):
+                nbad += 1
+    # recorded findings: one recorded minimal input per open entry
+    for e in c.findings:
+        if e.get('status') != 'open': continue
+        sig = e.get('signature')
+        if sig in state: c.report_known_still_failing(e, any(state[sig]))
+        elif sig == 'dispatch:curvature-not-unwrapped':
+            from nutils import mesh, function
+            topo, geom = mesh.rectilinear([2, 3])
+            try: function.curvature(geom * SI.Length('2m')); still = False
+            except RecursionError: still = True
+            c.report_known_still_failing(e, still)
+        else:
+            c.count('known-finding-without-replay')
+    c.obligation('oracle:keyword-operands', nbad == 0, 'exploration', '%d keyword calls' % len(keyword_cases(SI)))
+    return
+    yield
+
+
+# ------------------------------------------------------------------------------------------------ stream: compositions of operators
+
+class DimMismatch(Exception):
+    pass
+
+def gen_tree(rng, depth, leaves, fn):
+    """expression tree over leaf indices; `fn`: function-array flavour (fewer operators)"""
+    if depth == 0 or rng.random() < .25:
+        return ('leaf', rng.randrange(leaves))
+    ops1 = ['neg', 'abs', 'sqrtabs', 'pow2', 'powm1', 'pow3_2'] + ([] if fn else ['sum', 'mean', 'max', 'item', 'powhalf'])
+    ops2 = ['add', 'sub', 'mul', 'div', 'mul', 'div', 'add_coerced', 'sub_coerced'] + ([] if fn else ['maximum', 'stack0', 'hypot_coerced', 'mod_coerced'])
+    if rng.random() < .4:
+        return (rng.choice(ops1), gen_tree(rng, depth - 1, leaves, fn))
+    return (rng.choice(ops2), gen_tree(rng, depth - 1, leaves, fn), gen_tree(rng, depth - 1, leaves, fn))
+
+def tree_dims(t, leafdims, reqs):
+    """specification: exponent dict of the tree by exact arithmetic (raises DimMismatch); records one model request per node"""
+    op = t[0]
+    if op == 'leaf': return leafdims[t[1]]
+    a = tree_dims(t[1], leafdims, reqs)
+    if len(t) == 2:
+        if op in ('neg', 'abs', 'sum', 'mean', 'max', 'item'): r = a
+        else:
+            e = {'sqrtabs': F(1, 2), 'pow2': F(2), 'powm1': F(-1), 'pow3_2': F(3, 2), 'powhalf': F(1, 2)}[op]
+            r = spec_pow(a, e); reqs.append(('dimop|pow|%s|%s' % (pows_str(a), rat(e)), r))
+        return r
+    b = tree_dims(t[2], leafdims, reqs)
+    if op == 'mul': r = spec_mul(a, b); reqs.append(('dimop|mul|%s|%s' % (pows_str(a), pows_str(b)), r)); return r
+    if op == 'div': r = spec_div(a, b); reqs.append(('dimop|div|%s|%s' % (pows_str(a), pows_str(b)), r)); return r
+    if op.endswith('_coerced'):
+        # the right operand is first multiplied with a plain-valued unit of dimension a/b
+        reqs.append(('dimop|mul|%s|%s' % (pows_str(b), pows_str(spec_div(a, b))), a)); return a
+    reqs.append(('apply|addLike|%s;%s|none' % ('q:' + pows_str(a) if a else 'p', 'q:' + pows_str(b) if b else 'p'), a if a == b else None))
+    if a != b: raise DimMismatch(op)
+    return a
+
+def tree_eval(SI, t, leaves, leafdims, quantities, scale=False):
+    """evaluate with real Quantity objects (quantities=True) or with the plain payloads"""
+    import numpy
+    op = t[0]
+    if op == 'leaf': return leaves[t[1]]
+    a = tree_eval(SI, t[1], leaves, leafdims, quantities, scale)
+    if len(t) == 2:
+        if op == 'neg': return -a
+        if op == 'abs': return abs(a)
+        if op == 'sqrtabs': return numpy.sqrt(abs(a))
+        if op == 'pow2': return a ** 2
+        if op == 'powm1': return a ** -1
+        if op == 'pow3_2': return abs(a) ** 1.5
+        if op == 'powhalf': return numpy.power(abs(a), F(1, 2) if False else .5)
+        if op == 'sum': return numpy.sum(a, axis=-1) if numpy.ndim(a) else a
+        if op == 'mean': return numpy.mean(a) if numpy.ndim(a) else a
+        if op == 'max': return numpy.max(a)
+        if op == 'item': return a[0] if numpy.ndim(a) else a
+    b = tree_eval(SI, t[2], leaves, leafdims, quantities, scale)
+    if op == 'add': return a + b
+    if op == 'sub': return a - b
+    if op == 'mul': return a * b
+    if op == 'div': return a / b
+    if op == 'maximum': return numpy.maximum(a, b)
+    if op == 'stack0': return numpy.stack([a, b])[0] if numpy.shape(a) == numpy.shape(b) else a + b
+    if op.endswith('_coerced'):
+        da, db = canon(dim_of(SI, a)), canon(dim_of(SI, b))
+        one = lambda d: SI.Dimension.from_powers(d).wrap(scale_of(d) if scale else 1.)      # a dimensional constant
+        if quantities: b = b * one(spec_div(da, db))
+        f = {'add': operator.add, 'sub': operator.sub, 'hypot': numpy.hypot, 'mod': lambda x, y: x % (abs(y) + 1.)}[op[:-8]]
+        if quantities and op == 'mod_coerced':
+            return a % (abs(b) + one(da))
+        return f(a, b)
+    raise ValueError(op)
+
+def stream_compositions(c, SI, N):
+    import numpy
+    rng = c.rng
+    W = World()
+    cases = []
+    quarter = lambda d: all((v * 4).denominator == 1 for v in d.values())
+    for _ in range(N):
+        fn = rng.random() < .25
+        nl = rng.randint(2, 4)
+        leafdims = [rng.choice([{}] + HALF_DIMS[:7]) for _ in range(nl)]
+        if fn:
+            pool = [W.u, W.geom[0], W.geom[1], W.u * W.geom[0] + 1., 2., .5]
+            vals = [rng.choice(pool[:4]) if i == 0 else rng.choice(pool) for i in range(nl)]
+            vals = [v + 1.5 if not isinstance(v, float) else v for v in vals]       # keep away from zero
+        else:
+            shape = rng.choice([(), (3,), (3,)])
+            vals = [np_values(rng, shape, positive=True) * rng.choice([1., -1., 1.]) for _ in range(nl)]
+            vals = [float(v) if v.shape == () else v for v in vals]
+        t = gen_tree(rng, rng.choice([1, 2, 2, 3]), nl, fn)
+        reqs = []
+        try: d = tree_dims(t, leafdims, reqs); spec = ('ok', d)
+        except DimMismatch as e: spec = ('mismatch', str(e))
+        cases.append((fn, t, leafdims, vals, reqs, spec))
+    flat = [r for case in cases for r, _ in case[4]]
+    ans = yield flat
+    pos = 0; nbad = 0
+    for fn, t, leafdims, vals, reqs, spec in cases:
+        a = ans[pos:pos + len(reqs)]; pos += len(reqs)
+        c.case(('tree', repr(t), [pows_str(d) for d in leafdims]), nontrivial=t[0] != 'leaf')
+        c.count('compose:' + ('function-arrays' if fn else 'numpy') + ':' + spec[0])
+        replay = dict(stream='compositions', tree=repr(t), leafdims=[pows_str(d) for d in leafdims], leaves=[repr(v)[:80] for v in vals], spec=[spec[0], pows_str(spec[1]) if spec[0] == 'ok' else spec[1]])
+        # model = specification on every node
+        for (rq, want), m in zip(reqs, a):
+            got = None if m.startswith('err|dimension') else pows_parse(m.split('|')[0]) if rq.startswith('dimop') else (pows_parse(re.match(r'ok\|Q<([^>]*)>', m).group(1)) if m.startswith('ok|Q<') else {})
+            if got != want:
+                nbad += 1; c.broken_no_input('corr:composition-node', 'model and exact arithmetic disagree on a node', dict(replay, request=rq, model=m, want=None if want is None else pows_str(want)))
+        D = SI.Dimension
+        def leaves(scale):
+            return [D.from_powers(dict(d)).wrap(v * (scale_of(d) if scale else 1.)) for d, v in zip(leafdims, vals)]
+        with numpy.errstate(all='ignore'):
+            try: r = tree_eval(SI, t, leaves(False), leafdims, True); rexc = None
+            except Exception as e: r = None; rexc = e
+            if spec[0] == 'mismatch':
+                if rexc is None:
+                    nbad += 1; c.failing_input('composition:mixed-dimensions-accepted', 'an expression that adds/compares different dimensions is evaluated without error', dict(replay, real=repr(r)[:200]))
+                elif not isinstance(rexc, TypeError):
+                    nbad += 1; c.broken_no_input('corr:composition-error', 'mixed dimensions rejected with %s' % type(rexc).__name__, dict(replay, exc=repr(rexc)[:200]))
+                continue
+            if rexc is not None:
+                nbad += 1; c.failing_input('composition:raises:' + type(rexc).__name__, 'a dimensionally consistent expression raises', dict(replay, exc=repr(rexc)[:300])); continue
+            if canon(dim_of(SI, r)) != spec[1]:
+                nbad += 1; c.failing_input('composition:wrong-dimension', 'dimension of a composed expression differs from exact arithmetic on the exponents', dict(replay, real=pows_str(dim_of(SI, r)))); continue
+            plain = tree_eval(SI, t, list(vals), leafdims, False)
+            ev = 'smp' if fn else 'np'
+            try:
+                v_real = evaluate_result(SI, W, r, ev); v_plain = evaluate_result(SI, W, plain, ev)
+            except Exception as e:
+                nbad += 1; c.broken_no_input('corr:composition-evaluation', 'cannot evaluate: %s' % type(e).__name__, dict(replay, exc=repr(e)[:300])); continue
+            if not same(v_real, v_plain, 1e-12 if fn else 0):
+                nbad += 1; c.failing_input('composition:value-differs', 'value of a composed expression differs from the same computation on plain numbers', dict(replay, real=repr(v_real)[:200], plain=repr(v_plain)[:200])); continue
+            c.traces += 1
+            if all(quarter(d) for d in leafdims) and quarter(spec[1]):
+                try:
+                    r2 = tree_eval(SI, t, leaves(True), leafdims, True, True)
+                    v2 = evaluate_result(SI, W, r2, ev)
+                    ok = same(v2, [x * scale_of(spec[1]) if isinstance(x, numpy.ndarray) and x.dtype.kind == 'f' else x for x in v_real], 1e-10)
+                except Exception as e:
+                    ok = False; v2 = repr(e)
+                c.count('compose:unit-invariance-checked')
+                if not ok:
+                    nbad += 1; c.failing_input('composition:unit-dependence', 'value of a composed expression changes with the choice of reference units', dict(replay, real=repr(v_real)[:200], rescaled=repr(v2)[:200]))
+    c.sample(dict(stream='compositions', tree=repr(cases[-1][1]), leafdims=[pows_str(d) for d in cases[-1][2]], spec=repr(cases[-1][5])))
+    c.obligation('corr:compositions', nbad == 0, 'correspondence', '%d expression trees' % len(cases))
+
+
+# ------------------------------------------------------------------------------------------------ stream: nutils/unit.py
+
+UNIT_BASE = {'m': F(1), 's': F(1), 'g': F(1, 1000), 'A': F(1), 'ol': F(2), 'in': F(1, 2), 'd': F(8), 'a': F(4), 'K': F(1), 'P': F(3)}
+UNIT_DERIVED = {'N': 'kg*m/s2', 'Pa': 'N/m2', 'J': 'N*m', 'W': 'J/s', 'min': '60s', 'h': '60min', 'Hz': '/s', 'mol': '3ol', 'cd': '5A', 'da': '10a',
+                'ha': 'hm2', 'L': 'dm3', 'kat': 'mol/s', 'mph': 'in/h', 'ft': '12in', 'bar': '100000Pa', 'x': '2y', 'y': '3x', 'z': '2q', 'kk': 'k*m', 'Ω': 'W/A2'}
+UNIT_PREFIX = dict(Y=24, Z=21, E=18, P=15, T=12, G=9, M=6, k=3, h=2, d=-1, c=-2, m=-3, μ=-6, n=-9, p=-12, f=-15, a=-18, z=-21, y=-24)
+
+def unit_spec_table(defs):
+    """resolve a unit system by the documented rules: name -> (powers over base names, exact value), or an error tag"""
+    table = {}; state = {}
+    def lookup(word):
+        if word in defs: return resolve(word)
+        if word and word[0] in UNIT_PREFIX and word[1:] in defs:
+            p, v = resolve(word[1:]); return p, v * F(10) ** UNIT_PREFIX[word[0]]
+        raise ValueError(word)
+    def resolve(name):
+        if name in table: return table[name]
+        if state.get(name) == 'busy': raise RecursionError(name)
+        state[name] = 'busy'
+        v = defs[name]
+        table[name] = ({name: 1}, F(v)) if not isinstance(v, str) else meaning(v, lookup)
+        state[name] = 'done'
+        return table[name]
+    for n_ in defs: resolve(n_)
+    return table, lookup
+
+def meaning(s, lookup):
+    """<number> (<op> <prefix><name><power>)* by the BNF of unit.py"""
+    m = re.fullmatch(r'([0-9.]*)((?:[*/]?[a-zA-Zα-ωΑ-Ω]+[0-9]*)*)', s)
+    if not m: raise ValueError(s)
+    val = F(m.group(1)) if m.group(1) else F(1)
+    pows = {}
+    for op, w, pw in re.findall(r'([*/]?)([a-zA-Zα-ωΑ-Ω]+)([0-9]*)', m.group(2)):
+        p, v = lookup(w)
+        e = int(pw) if pw else 1
+        if op == '/': e = -e
+        val *= v ** e
+        for k, x in p.items(): pows[k] = pows.get(k, 0) + x * e
+    return {k: x for k, x in pows.items() if x}, val
+
+def gen_unitpy_string(rng, names):
+    s = ''
+    if rng.random() < .6: s += rng.choice(['2', '2.5', '60', '.5', '100', '1.25', '7'])
+    for j in range(rng.choice([1, 1, 2, 3])):
+        op = rng.choice(['*', '/']) if (s or rng.random() < .3) else ''
+        if op == '*' and not s: op = ''
+        w = (rng.choice(sorted(UNIT_PREFIX)) if rng.random() < .4 else '') + rng.choice(names)
+        s += op + w + rng.choice(['', '', '', '2', '3', '1', '0'])
+    return s
+
+def stream_unitpy(c, N):
+    from nutils import unit
+    from decimal import Decimal
+    rng = c.rng
+    systems = []
+    for _ in range(max(6, N // 25)):
+        base = {k: UNIT_BASE[k] for k in rng.sample(sorted(UNIT_BASE), rng.randint(2, 6))}
+        if rng.random() < .8: base.setdefault('m', F(1)); base.setdefault('s', F(1)); base.setdefault('g', F(1, 1000))
+        der = {k: UNIT_DERIVED[k] for k in rng.sample(sorted(UNIT_DERIVED), rng.randint(0, 7))}
+        items = list(base.items()) + list(der.items()); rng.shuffle(items)
+        defs = dict(items)
+        names = sorted(defs) + ['q']
+        reqs = []
+        for _ in range(25):
+            s_ = gen_unitpy_string(rng, names)
+            if rng.random() < .2: s_ = corrupt_string(rng, s_)
+            if not re.fullmatch(r'[0-9a-zA-Zα-ωΑ-Ω.+\-*/]*', s_): continue
+            k = rng.random()
+            if k < .5: reqs.append(('p', s_))
+            elif k < .75: reqs.append(('c', s_))
+            else: reqs.append(('l', gen_unitpy_string(rng, names).lstrip('0123456789.'), s_))
+        systems.append((defs, reqs))
+    enc = lambda defs: ';'.join('%s=%s' % (k, '~' + v if isinstance(v, str) else rat(v)) for k, v in defs.items())
+    ans = yield ['usys|%s|%s' % (enc(defs), ';'.join('~'.join(r) for r in reqs)) for defs, reqs in systems]
+    nbad = 0
+    def quantity(q): return '%s' % ','.join('%s:%d' % kv for kv in sorted(q.powers.items()))
+    for (defs, reqs), m in zip(systems, ans):
+        replay0 = dict(stream='unit.py', defs={k: str(v) for k, v in defs.items()})
+        try: U = unit.create(**{k: (v if isinstance(v, str) else float(v)) for k, v in defs.items()}); built = 'built'
+        except BaseException as e: built = 'builderr|' + exc_name(e)
+        try: table, lookup = unit_spec_table(defs); spec_built = True
+        except (ValueError, RecursionError, ZeroDivisionError): spec_built = False
+        c.case(('usys', enc(defs)), nontrivial=True); c.count('unitpy:' + built)
+        if spec_built and built != 'built':
+            nbad += 1; c.failing_input('unit-py:create-rejects-valid-system', 'unit.create rejects a resolvable unit system', dict(replay0, real=built)); continue
+        if not m.startswith(built):
+            nbad += 1; c.broken_no_input('corr:unit.create', 'unit.create and its model disagree', dict(replay0, real=built, model=m[:200])); continue
+        if built != 'built': continue
+        parts = m.split('#')
+        # the resolved quantities
+        mt = dict(x.split('=', 1) for x in parts[0][6:].split(';'))
+        for k in defs:
+            rq = U._parse(k)
+            mv, mp = mt[k].split('|')
+            if quantity(rq) != mp or not close_rel(rq.value, F(mv)) or (spec_built and (table[k][0] != rq.powers or not close_rel(rq.value, table[k][1]))):
+                nbad += 1
+                (c.failing_input if spec_built else c.broken_no_input)('unit-py:resolved-unit' if spec_built else 'corr:unit.create', 'resolved unit %r differs' % k,
+                                                                      dict(replay0, unit=k, real=[rq.value, rq.powers], model=mt[k], spec=str(table.get(k)) if spec_built else None))
+        for r, a in zip(reqs, parts[1:]):
+            s_ = r[-1]
+            try:
+                if r[0] == 'p': q = U._parse(s_); real = 'ok', q.value, quantity(q)
+                elif r[0] == 'c': real = 'ok', float(U(s_)), None
+                else: real = 'ok', float(U[r[1]].__stringly_loads__(s_)), None
+            except BaseException as e: real = 'err', exc_name(e), None
+            replay = dict(replay0, request=r, real=repr(real), model=a)
+            c.case(('unitpy', enc(defs), r), nontrivial=True); c.count('unitpy:%s:%s' % (r[0], real[0] if real[0] == 'ok' else real[1]))
+            if real[1] == 'OverflowError' or a == 'err|range': continue
+            # meaning by the grammar
+            try:
+                sp, sv = meaning(s_, lookup); ingrammar = True
+                if r[0] == 'l': up, _ = meaning(r[1], lookup); ingrammar = up == sp
+                if r[0] == 'c': up, _ = meaning(s_.lstrip('1234567890.*'), lookup); ingrammar = up == sp
+            except (ValueError, ZeroDivisionError, RecursionError): ingrammar = False
+            if ingrammar and spec_built:
+                good = real[0] == 'ok' and close_rel(real[1], sv, 1e-11) and (r[0] != 'p' or real[2] == ','.join('%s:%d' % kv for kv in sorted(sp.items())))
+                if not good and not (real[0] == 'err' and real[1] == 'zeroDiv'):
+                    nbad += 1; c.failing_input('unit-py:grammar-string', 'nutils.unit gives a wrong value/powers for a string of its documented grammar', dict(replay, spec=[str(sv), sp])); continue
+            af = a.split('|')
+            okm = (real[0] == 'ok' and af[0] == 'ok' and close_rel(real[1], F(af[1]), 1e-11) and (r[0] != 'p' or real[2] == af[2])) or (real[0] == 'err' and af[0] == 'err' and real[1] == af[1])
+            if not okm:
+                nbad += 1; c.broken_no_input('corr:unit.parse', 'nutils.unit and its model disagree', replay)
+    # dumps / _f2s / round trip
+    U = unit.create(m=1, s=1, g=.5, N='kg*m/s2')
+    nr = 0
+    vals = [-2.5e-5, 4.0, 0.0, 1e-7, 1.5e10, 123.456, 1e22, -3.0, -1.5e20, -0.001, 2.5e-5, 7e-4, -7e-5, 1., -1e-9, 5e-324 * 1e300]
+    vals += [rng.choice([1, -1]) * rng.choice([1, 2.5, 7, 1.25, 3]) * 10. ** rng.randint(-9, 12) for _ in range(N // 4)]
+    for v in vals:
+        for un in ['m', 'km', 'N', 's2', '/s', '2m']:
+            c.case(('dumps', v, un), nontrivial=True)
+            try:
+                txt = U[un].__stringly_dumps__(v)
+                back = U[un].__stringly_loads__(txt); err = None
+            except Exception as e:
+                txt = locals().get('txt'); back = None; err = e
+            uval = U._parse(un).value
+            num = txt[:len(txt) - len(un)] if txt else None
+            okfmt = num is not None and re.fullmatch(r'-?[0-9]+(\.[0-9]+)?', num) is not None and Decimal(num) == Decimal(repr(v / uval))
+            okrt = err is None and back is not None and abs(back - v) <= 1e-12 * abs(v)
+            c.count('unitpy:dumps-' + ('ok' if okfmt and okrt else 'bad'))
+            if not (okfmt and okrt):
+                nr += 1
+                if un[0].isdigit():
+                    c.failing_input('unit-py:bound-unit-numeral-accepted', 'bound unit type accepts a unit that starts with a numeral; dumps/loads round trip changes the value', dict(stream='unit.py', value=v, unit=un, text=txt, back=back))
+                elif num is not None and '-' in num[1:]:
+                    c.failing_input('unit-py:f2s-negative-exponent', 'unit._f2s misplaces the minus sign of small negative numbers, so dumps() output cannot be loaded', dict(stream='unit.py', value=v, unit=un, text=txt, exc=repr(err)))
+                else:
+                    c.failing_input('unit-py:dumps-roundtrip', 'dumps/loads of nutils.unit does not round-trip the value', dict(stream='unit.py', value=v, unit=un, text=txt, back=back, exc=repr(err)))
+    c.obligation('corr:unit.py', nbad == 0 and nr == 0, 'correspondence', '%d unit systems, %d dumps round trips (%d bad)' % (len(systems), len(vals) * 6, nr))
+
+
+# ------------------------------------------------------------------------------------------------ stream: _util.nutils_dispatch
+
+def stream_dispatch_decorator(c, N):
+    """the decorator against a direct reading of its contract: the first positional argument (after binding and defaults)
+    whose type has `__nutils_dispatch__` and does not decline gets (wrapper, args, kwargs); every type is asked once"""
+    from nutils import _util
+    rng = c.rng
+    log = []
+    def mk(name, answers):
+        class T:
+            @classmethod
+            def __nutils_dispatch__(cls, func, args, kwargs):
+                log.append((name, func, args, dict(kwargs)))
+                return answers[name]()
+        T.__name__ = name
+        return T
+    answers = {}
+    A, B, C = mk('A', answers), mk('B', answers), mk('C', answers)
+    class P: pass
+    def f(x, y=7, /, z=None, *rest, k=3, **kw):
+        return ('plain', x, y, z, rest, k, tuple(sorted(kw)))
+    g = _util.nutils_dispatch(f)
+    nbad = 0
+    for _ in range(N):
+        decline = {n_: rng.random() < .4 for n_ in 'ABC'}
+        for n_ in 'ABC': answers[n_] = (lambda n_=n_: NotImplemented if decline[n_] else ('handled', n_))
+        objs = [rng.choice([A, B, C, P])() if rng.random() < .7 else rng.randint(0, 5) for _ in range(rng.randint(1, 5))]
+        kwargs = {}
+        if rng.random() < .3: kwargs['k'] = rng.choice([A(), 1])
+        if rng.random() < .3 and len(objs) < 3: kwargs['z'] = rng.choice([B(), 2])
+        if rng.random() < .2: kwargs['extra'] = C()
+        del log[:]
+        try: r = g(*objs, **kwargs)
+        except TypeError as e: r = ('typeerror',)
+        # reference
+        pos = list(objs)
+        if len(pos) < 2: pos.append(7)
+        if len(pos) < 3: pos.append(kwargs.get('z'))
+        kws = {k: v for k, v in kwargs.items() if k != 'z' or len(objs) >= 3}
+        if 'z' in kwargs and len(objs) >= 3: want = ('typeerror',); wantlog = []
+        else:
+            kws.setdefault('k', 3)
+            kwb = {'k': kws['k'], 'kw': {k: v for k, v in kws.items() if k != 'k'}}
+            want = None; wantlog = []; seen = []
+            for a in pos:
+                T = type(a)
+                if hasattr(T, '__nutils_dispatch__') and T not in seen:
+                    wantlog.append(T.__name__)
+                    if not decline[T.__name__]: want = ('handled', T.__name__); break
+                    seen.append(T)
+            if want is None:
+                want = f(*objs, **kwargs)
+        c.case(('nutils_dispatch', [type(o).__name__ for o in objs], sorted(kwargs), sorted(decline.items())), nontrivial=True)
+        c.count('dispatch-decorator:' + want[0])
+        good = r == want and [l[0] for l in log] == wantlog and all(l[1] is g and l[2] == tuple(pos) for l in log)
+        if not good:
+            nbad += 1
+            c.failing_input('nutils_dispatch:contract', 'nutils_dispatch does not follow its dispatch contract (order, once per type, fallback, arguments handed over)',
+                            dict(stream='nutils_dispatch', args=[type(o).__name__ for o in objs], kwargs=sorted(kwargs), decline=decline, real=repr(r), want=repr(want), asked=[l[0] for l in log], want_asked=wantlog))
+    c.obligation('oracle:nutils_dispatch', nbad == 0, 'exploration', '%d calls' % N)
+    return
+    yield
+
+
+def run_streams(c, gens):
+    """drive generator streams in lockstep so that each round needs one start of the Lean driver"""
+    pending = []
+    for name, g in gens:
+        try: pending.append((name, g, next(g)))
+        except StopIteration: pass
+    rounds = 0
+    while pending:
+        allreq = []
+        for name, g, reqs in pending: allreq += reqs
+        ans = c.model(allreq); rounds += 1
+        nxt = []; pos = 0
+        for name, g, reqs in pending:
+            a = ans[pos:pos + len(reqs)]; pos += len(reqs)
+            bad = [r for r, x in zip(reqs, a) if x == 'bad-request']
+            if bad: raise Infra('driver does not understand request %r of stream %s' % (bad[0], name))
+            try: nxt.append((name, g, g.send(a)))
+            except StopIteration: c.log('stream %s done' % name)
+        pending = nxt
+    c.extra['driver_rounds'] = rounds
 
 
 def run(c):
-    import warnings
+    import warnings, treelog
     warnings.simplefilter('ignore')
+    with treelog.set(treelog.NullLog()):
+        _run(c)
+
+def _run(c):
+    import os
     from nutils import SI
     quick = c.tier == 'quick'
     c.rule = 'TODO'
     entries = extract_dispatch(SI)
     defs, unsupported = extract_unit_defs(SI)
     c.write_generated('C20.lean', generated_text(entries, defs))
-    import os
     broken = [] if os.environ.get('NVH_DEV_SKIP_BUILD') else c.build_and_audit()
     c.log('lean build + audit done')
-    stream_handlers(c, SI, entries, 40 if quick else 1500)
-    c.log('handlers done')
-    stream_dim_algebra(c, SI, 300 if quick else 6000)
-    c.log('dimension algebra done')
-    stream_names(c, SI, 300 if quick else 6000)
-    c.log('names done')
+    out = {}
+    n = (lambda q, t: q if quick else t)
+    run_streams(c, [
+        ('handlers', stream_handlers(c, SI, entries, n(40, 1500), out)),
+        ('api', stream_api(c, SI, entries, n(6, 150), out)),
+        ('dim-algebra', stream_dim_algebra(c, SI, n(300, 6000))),
+        ('names', stream_names(c, SI, n(300, 6000))),
+        ('units', stream_units(c, SI, defs, n(300, 8000))),
+        ('compositions', stream_compositions(c, SI, n(150, 5000))),
+        ('unit.py', stream_unitpy(c, n(150, 4000))),
+        ('nutils_dispatch', stream_dispatch_decorator(c, n(200, 5000))),
+        ('locate', stream_locate(c, SI, n(25, 400))),
+        ('protocol', stream_protocol(c, SI, n(40, 1500))),
+        ('keywords', stream_keywords(c, SI)),
+    ])
+    # a handler that differs from its model: explained if a function routed to this kind has a failing input, else unexplained
+    failed, laws = out['failed'], out['laws']
+    failed_kinds = {laws[f].split('|')[1] for f in failed if laws.get(f, 'none') != 'none'}
+    for kind, replay in out['pending'].items():
+        if kind in failed_kinds: c.count('handlers:mismatch-explained-by-failing-input')
+        else: c.broken_no_input('corr:handler:' + kind, 'handler and its model disagree, no failing input through the public API', replay)
     for b in broken:
         c.broken_no_input('proof', b, dict(detail=b))
